@@ -194,6 +194,26 @@ def check(ctx):
         r2.ok("the value-parameter filter drops Channel<T> and tauri::ipc::Channel<T>")
     else:
         r2.bad(V(r2.id, "CommandParser::is_tauri_parameter_type", "channel-not-filtered", "Channel parameters are not removed from the value parameters: they would appear twice"))
+    # the extractor is applied to every discovered command: in each caller, the call sits in the loop over the commands under no other guard than
+    # "the function was found again in the AST"
+    reach = P.reachable(ENTRY_POINTS)
+    callers = [(fid, f, c) for fid, f in P.fns.items() if fid in reach for c in f.calls
+               if short_path(c.best) == "ChannelParser::extract_channels_from_command" and c.bb in f.reach_blocks]
+    for fid, f, c in callers:
+        extra = []
+        for (bb, keep, lose) in f.filters_in_iteration(c.bb):
+            o, _ = f.cond_struct(bb, keep[0])
+            if o[0] == "call" and (o[1].name in ("next", "branch") or short_path(o[1].best) in ("CommandAnalyzer::find_function_in_ast",)):
+                continue
+            if o[0] in ("proj", "arg", "multi"):
+                continue
+            extra.append(short_path(o[1].best) if o[0] == "call" else (o[1] if o[0] == "bin" else o[0]))
+        if extra:
+            r2.bad(V(r2.id, fid, "channel-attach-filters:%s" % ",".join(sorted(extra)), "channels are not extracted for every command: branches on %s skip some (a command whose only frontend parameters are channels loses them)" % extra, c.file, c.line))
+        else:
+            r2.ok("%s: channels extracted for every command found in the file" % short_path(fid))
+    if not callers:
+        r2.bad(V(r2.id, "<anchor>", "missing:extract_channels_from_command-callers", "nobody calls the channel extractor"))
     ec = P.find("ChannelParser::extract_channels_from_command")
     for f in ec:
         pushes = [c for c in f.calls if short_path(c.path) == "Vec::push"]
@@ -257,6 +277,26 @@ def check(ctx):
             r3.ok("%s: key holes %s" % (name, sorted(ks)))
         elif bad:
             r3.bad(V(r3.id, name, "key-binding:%s" % ",".join(sorted(bad)), "parameter keys are bound to %s" % sorted(bad)))
+    # a key is the serde rule applied to the Rust name and nothing else: apply_naming_convention appends/prepends no literal text
+    anc = S.fn("NamingContext", "apply_naming_convention")
+    if anc is None:
+        r3.bad(V(r3.id, "<anchor>", "missing:apply_naming_convention", "anchor not found"))
+    else:
+        lits = []
+        for e in walk_block(anc.body):
+            if e.get("k") == "mcall" and e["method"] in ("push", "push_str", "insert", "insert_str") and e["args"]:
+                a_ = e["args"][-1]
+                if a_.get("k") == "lit" and a_["lit"]["t"] in ("str", "char"):
+                    lits.append("%s(%r)" % (e["method"], a_["lit"]["v"]))
+            if e.get("k") == "macro" and e["name"] == "format" and e.get("args") and lit_str(e["args"][0]) is not None:
+                fr = re.sub(r"\{[^{}]*\}", "", lit_str(e["args"][0]))
+                if fr:
+                    lits.append("format!(%r)" % lit_str(e["args"][0]))
+        if lits:
+            r3.bad(V(r3.id, "NamingContext::apply_naming_convention", "naming-adds-literal:%s" % ",".join(sorted(lits)),
+                     "apply_naming_convention adds literal text (%s) to the converted name: every key and name built from it changes, not only the one it was meant for" % ", ".join(sorted(lits))))
+        else:
+            r3.ok("apply_naming_convention returns the rule's result unmodified")
     # the configured default is camelCase whichever way the configuration is obtained (no file / file without the key): rule shared with C19-D3
     from c19 import check_default_sources
     vals = check_default_sources(S, r3, only={"default_parameter_case"})
